@@ -113,22 +113,27 @@ Definition returnedN (ans : nanss) (j : nat) : option Z :=
             end
   end.
 
-(** the I/O error a plain buffer's script ends with *)
-Definition leaf_err (b : bufscript) : option Z :=
+(** [e] is the I/O error with which a plain buffer read as a stream fails: the
+    error its script ends with (a byte slice: INVALID_ARGUMENT when it is opened
+    beyond its end) *)
+Definition leaf_fin (b : bufscript) (e : Z) : bool :=
   match b with
-  | BChunk evs | BReader evs _ => match snd (content evs) with ECode c => Some c | _ => None end
-  | BBytes _ => None
-  | BError c => Some c
+  | BChunk evs | BReader evs _ => match snd (content evs) with ECode c => e =? c | _ => false end
+  | BBytes _ => e =? 3
+  | BError c => e =? c
   end.
 
-(** [fin stream t o e]: [e] is the error with which the buffer [t], observed as
+(** [fin ex stream t o e]: [e] is the error with which the buffer [t], observed as
     [o], has failed towards the handler that holds it: for a wrapped buffer
     the error ITS handler returned; for a plain buffer read as a stream the
     I/O error of its script (for whole-operation retries a plain buffer's
-    error may also be a validation error: not constrained). *)
-Definition fin (stream : bool) (t : nbuf) (o : ctree) (e : Z) : bool :=
+    error may also be a validation error: not constrained).  [ex]: errors
+    that are accepted from anybody (the monitor: none; the theorems on the
+    model: the model's out-of-fuel marker). *)
+Definition fin (ex : Z -> bool) (stream : bool) (t : nbuf) (o : ctree) (e : Z) : bool :=
+  ex e ||
   match t, o with
-  | NB b, TLeaf _ => if stream then match leaf_err b with Some c => e =? c | None => false end else true
+  | NB b, TLeaf _ => if stream then leaf_fin b e else true
   | NW _ ans, TNode offs _ _ => match returnedN ans (length offs) with Some c => e =? c | None => false end
   | _, _ => false
   end.
@@ -140,13 +145,14 @@ Definition fin (stream : bool) (t : nbuf) (o : ctree) (e : Z) : bool :=
     failed: the I/O error of a plain buffer goes to the innermost enclosing
     handler, the error a handler returns is what the enclosing handler is
     offered, nothing else is. *)
-Fixpoint chk (s : bool) (t : nbuf) (o : ctree) : bool :=
+Fixpoint chk (ex : Z -> bool) (s : bool) (t : nbuf) (o : ctree) : bool :=
   match t, o with
   | NB _, TLeaf _ => true
-  | NW inner ans, TNode offers _ (o0 :: kids) => chk s inner o0 && walk s ans (fin s inner o0) offers kids
+  | NW inner ans, TNode offers _ (o0 :: kids) =>
+      chk ex s inner o0 && walk ex s ans (fin ex s inner o0) offers kids
   | _, _ => false
   end
-with walk (s : bool) (ans : nanss) (fe : Z -> bool) (offers : list Z) (kids : list ctree) : bool :=
+with walk (ex : Z -> bool) (s : bool) (ans : nanss) (fe : Z -> bool) (offers : list Z) (kids : list ctree) : bool :=
   match offers with
   | [] => match kids with [] => true | _ => false end
   | e :: offers' =>
@@ -154,13 +160,14 @@ with walk (s : bool) (ans : nanss) (fe : Z -> bool) (offers : list Z) (kids : li
       match ans with
       | ARep t' r =>
           match kids with
-          | o' :: kids' => chk s t' o' && walk s r (fin s t' o') offers' kids'
+          | o' :: kids' => chk ex s t' o' && walk ex s r (fin ex s t' o') offers' kids'
           | [] => false
           end
-      | AFail _ r => walk s r fe offers' kids
+      | AFail _ r => walk ex s r fe offers' kids
       | ANil => forallb fe offers' && match kids with [] => true | _ => false end
       end
   end.
+Definition no_ex (e : Z) : bool := false.
 
 (** every plain buffer of the tree carries the object [C] (decidable form of
     [carries_full]); readers that attach EOF to data have clean scripts *)
@@ -222,7 +229,7 @@ Definition mon16N (inp obs : sx) : list Z :=
          every byte once, in order *)
    (if pre && completes m code && negb (bytes_eqb delivered (expected m C)) then [3] else []) ++
    (* 4: the offering rule at every handler of the tree *)
-   (if pre && negb (chk stream t ot) then [4] else []) ++
+   (if pre && negb (chk no_ex stream t ot) then [4] else []) ++
    (* 7: whatever the outcome of a streaming method, the bytes handed out are a prefix of the
          expected slice: nothing duplicated, skipped or foreign *)
    (if pre && stream && negb (bytes_prefix delivered (expected m C)) then [7] else [])).
